@@ -46,16 +46,14 @@ fn bad_reply<S: serde::Serialize, T, R: serde::de::DeserializeOwned>(
     let mut img = G1Affine(s1).to_compressed().to_vec();
     img.extend_from_slice(&G1Affine(s2).to_compressed());
     let r = ps_ref(key, s1, s2, bf, &m);
-    // --- refusing outcome (pairing comparison false)
+    // --- refusing outcome: a generic (random-valued) reply follows the shadow values and fails the pairing comparison
     sx::set_label("badreply");
     let n0 = sx::n_decisions();
-    sx::force_seq(vec![false, false, false]); // decode: not identity; verify: not identity; pairing: false
     let reply: R = decode(&img)?;
     let out = step(state, reply);
-    let made = sx::n_decisions() - n0;
-    if made != 3 {
-        sx::force_seq(vec![]);
-        eng::inconclusive(&format!("{}: a symbolic reply is checked with {} decisions (expected 3)", name, made));
+    let made = decisions_since(n0);
+    if made.is_empty() {
+        eng::finding("C03 reply-not-checked", &format!("{}: a merchant reply is taken over without any comparison", name), None, json!({"kind":"model"}));
     }
     match out {
         Ok(_) => {
@@ -74,7 +72,8 @@ fn bad_reply<S: serde::Serialize, T, R: serde::de::DeserializeOwned>(
 }
 
 /// accepting outcome of a symbolic reply: only if it IS a valid signature on the expected message
-fn good_symbolic_reply<S: serde::Serialize, T, R: serde::de::DeserializeOwned>(name: &str, key: &[Atom], state: S, bf_path: &str, msg: impl Fn(&[Atom]) -> [Scalar; 5], step: impl Fn(S, R) -> Result<T, S>) {
+fn good_symbolic_reply<S: serde::Serialize + serde::de::DeserializeOwned, T, R: serde::de::DeserializeOwned>(name: &str, key: &[Atom], state: S, bf_path: &str, msg: impl Fn(&[Atom]) -> [Scalar; 5], step: impl Fn(S, R) -> Result<T, S>) {
+    type_alias_hack::<S>();
     let l = atoms::layout(&state);
     let at = atoms::atoms_of_layout(&l);
     let bf = atom_scalar(&at, bf_path);
@@ -83,8 +82,22 @@ fn good_symbolic_reply<S: serde::Serialize, T, R: serde::de::DeserializeOwned>(n
     let mut img = G1Affine(s1).to_compressed().to_vec();
     img.extend_from_slice(&G1Affine(s2).to_compressed());
     let r = ps_ref(key, s1, s2, bf, &m);
+    // learn the comparison sequence of a (refused) generic reply on a scratch copy of the state, then force the last
+    // comparison (the pairing equation) to hold
+    let scratch: S = decode(&l.bytes).expect("scratch copy of the customer state");
+    sx::set_label("badreply-probe");
+    let n0 = sx::n_decisions();
+    let probe: Option<R> = decode(&img);
+    let mut seq: Vec<bool> = vec![];
+    if let Some(probe) = probe {
+        let _ = step(scratch, probe);
+        seq = decisions_since(n0).iter().map(|d| d.outcome).collect();
+    }
+    if let Some(last) = seq.last_mut() {
+        *last = !*last;
+    }
     sx::set_label("badreply");
-    sx::force_seq(vec![false, false, true]);
+    sx::force_seq(seq);
     let reply: Option<R> = decode(&img);
     if let Some(reply) = reply {
         if step(state, reply).is_ok() {
@@ -94,6 +107,41 @@ fn good_symbolic_reply<S: serde::Serialize, T, R: serde::de::DeserializeOwned>(n
         }
     }
     sx::force_seq(vec![]);
+}
+
+fn type_alias_hack<S>() {}
+
+/// The merchant's own code run with a zero signing draw produces the all-identity signature as an in-memory reply
+/// (it never goes through the decode-time check).  The customer must refuse it, for every value of everything else.
+fn identity_reply<S: serde::Serialize, T, R>(name: &str, state: S, reply: R, step: impl Fn(S, R) -> Result<T, S>) -> Option<S> {
+    let before = atoms::layout(&state).bytes;
+    sx::set_label("idreply");
+    let n0 = sx::n_decisions();
+    match step(state, reply) {
+        Ok(_) => {
+            eng::finding("C03 identity-signature-accepted", &format!("{}: the all-identity signature (merchant signing randomness 0) is accepted", name), None, json!({"kind":"model"}));
+            None
+        }
+        Err(back) => {
+            all_forced(&format!("{}: identity reply refused for every value", name), "C03 identity-signature-accepted", n0, "idreply");
+            if atoms::layout(&back).bytes != before {
+                eng::finding("C03 state-changed-by-refused-reply", &format!("{}: state changed by a refused identity reply", name), None, json!({"kind":"model"}));
+            }
+            Some(back)
+        }
+    }
+}
+fn with_zero_draw<Rv>(f: impl FnOnce(&mut OnDemandZeroRng) -> Rv) -> Rv {
+    let mut z = OnDemandZeroRng::new(99);
+    z.zero_next = true;
+    sx::set_mode(DrawMode::Free);
+    let n = sx::with(|a| a.draws.len());
+    let r = f(&mut z);
+    sx::set_mode(DrawMode::NonDegenerate);
+    // the signing draw is exactly zero on this run
+    let u = sx::with(|a| a.vars[a.draws[n] as usize].node);
+    sx::assume(is_z(Scalar::from_term(u)), "merchant signing draw is zero");
+    r
 }
 
 fn state_msg(at: &[Atom], pfx: &str, cbal: u64, mbal: u64, close: bool) -> [Scalar; 5] {
@@ -140,8 +188,13 @@ fn history(seed: u64, c0: u64, m0: u64, amt: i64) {
             let cid = channel_id(&w, &mut rng, b"m", b"c");
             sx::set_label("cust:requested");
             let (req, proof) = CRequested::new(&mut rng, &w.cust, cid, mb(m0), cb(c0), &ctx);
+            let proof_bytes = atoms::layout(&proof).bytes;
             sx::set_label("merch:initialize");
             let (closing, vbs) = w.merchant.initialize(&mut rng, &cid, cb(c0), mb(m0), proof, &ctx).expect("establish");
+            // the same merchant call with signing randomness 0: all-identity replies
+            sx::set_label("merch:initialize-zero");
+            let (closing_id, vbs2) = with_zero_draw(|z| w.merchant.initialize(z, &cid, cb(c0), mb(m0), decode::<Proof>(&proof_bytes).unwrap(), &ctx).expect("establish (zero draw)"));
+            let pt_id = with_zero_draw(|z| w.merchant.activate(z, vbs2));
             // ---- reply position 1: closing signature for the initial close state
             if stop == "inactive" && accept_variant {
                 good_symbolic_reply::<_, _, ClosingSignature>(&name, &key, req, "close_state_blinding_factor", |at| state_msg(at, "state.", c0, m0, true), |s, r| s.complete(r, &w.cust));
@@ -149,6 +202,10 @@ fn history(seed: u64, c0: u64, m0: u64, amt: i64) {
                 continue;
             }
             let req = match bad_reply::<_, _, ClosingSignature>(&format!("{} @complete", name), &key, req, "close_state_blinding_factor", |at| state_msg(at, "state.", c0, m0, true), |s, r| s.complete(r, &w.cust)) {
+                Some(x) => x,
+                None => return,
+            };
+            let req = match identity_reply(&format!("{} @complete", name), req, closing_id, |s, r| s.complete(r, &w.cust)) {
                 Some(x) => x,
                 None => return,
             };
@@ -173,6 +230,10 @@ fn history(seed: u64, c0: u64, m0: u64, amt: i64) {
                 Some(x) => x,
                 None => return,
             };
+            let inactive = match identity_reply(&format!("{} @activate", name), inactive, pt_id, |s, r| s.activate(r, &w.cust)) {
+                Some(x) => x,
+                None => return,
+            };
             sx::set_label("cust:activate");
             let ready = inactive.activate(pt, &w.cust).ok().expect("honest pay token");
             if stop == "ready" {
@@ -184,8 +245,11 @@ fn history(seed: u64, c0: u64, m0: u64, amt: i64) {
             }
             sx::set_label("cust:start");
             let (started, start) = ready.start(&mut rng, amount(amt), &pctx, &w.cust).ok().expect("start");
+            let pp_bytes = atoms::layout(&start.pay_proof).bytes;
             sx::set_label("merch:allow_payment");
             let (unrev, closing2) = w.merchant.allow_payment(&mut rng, amount(amt), &start.nonce, start.pay_proof, &pctx).expect("allow");
+            sx::set_label("merch:allow_payment-zero");
+            let (unrev_id, closing2_id) = with_zero_draw(|z| w.merchant.allow_payment(z, amount(amt), &start.nonce, decode::<PProof>(&pp_bytes).unwrap(), &pctx).expect("allow (zero draw)"));
             // ---- reply position 3: closing signature for the NEW close state
             if stop == "started" && accept_variant {
                 good_symbolic_reply::<_, _, ClosingSignature>(&name, &key, started, "blinding_factors.for_close_state", |at| state_msg(at, "new_state.", c1, m1, true), |s, r| s.lock(r, &w.cust).map(|x| x.0));
@@ -204,6 +268,10 @@ fn history(seed: u64, c0: u64, m0: u64, amt: i64) {
                 eng::path_done();
                 continue;
             }
+            let started = match identity_reply(&format!("{} @lock", name), started, closing2_id, |s, r| s.lock(r, &w.cust).map(|x| x.0)) {
+                Some(x) => x,
+                None => return,
+            };
             sx::set_label("cust:lock");
             let (locked, lockmsg) = started.lock(closing2, &w.cust).ok().expect("honest closing signature");
             let old_lock = atom_scalar(&atoms::atoms_of(&lockmsg.revocation_pair), "lock");
@@ -212,6 +280,11 @@ fn history(seed: u64, c0: u64, m0: u64, amt: i64) {
             sx::assume(ne(atom_scalar(&atoms::atoms_of(&lockmsg.revocation_pair), "secret.secret"), atom_scalar(&lat, "state.revocation_pair.secret.secret")), "distinct revocation secrets");
             sx::set_label("merch:complete_payment");
             let pt2 = unrev.complete_payment(&mut rng, &lockmsg.revocation_pair, &lockmsg.revocation_lock_blinding_factor).ok().expect("complete");
+            let pt2_id = with_zero_draw(|z| unrev_id.complete_payment(z, &lockmsg.revocation_pair, &lockmsg.revocation_lock_blinding_factor).ok().expect("complete (zero draw)"));
+            let locked = match identity_reply(&format!("{} @unlock", name), locked, pt2_id, |s, r| s.unlock(r, &w.cust)) {
+                Some(x) => x,
+                None => return,
+            };
             // ---- reply position 4: pay token for the new state
             if stop == "locked" && accept_variant {
                 good_symbolic_reply::<_, _, PayToken>(&name, &key, locked, "blinding_factor", |at| state_msg(at, "state.", c1, m1, false), |s, r| s.unlock(r, &w.cust));
